@@ -970,88 +970,3 @@ func (c *FnCtx) coerceInt(t Term, ty types.Type) Term {
 	return t
 }
 
-// ---------------------------------------------------------------------------------------
-// channels (abstract): len, cap, closed; ghost counters sent/recvd
-
-func (c *FnCtx) chanInit(st *State, r Term, size Term) {
-	set := func(name string, s Sort, v Term) {
-		h := c.heapGet(st, name, SArr(SInt, s))
-		c.heapSet(st, name, c.vc.Name("h", Store(h, r, v)))
-	}
-	set("chan$len", SInt, IntLit(0))
-	set("chan$cap", SInt, c.intTerm(size))
-	set("chan$closed", SBool, TFalse)
-	set("chan$sent", SInt, IntLit(0))
-	set("chan$recvd", SInt, IntLit(0))
-}
-
-func (c *FnCtx) chanField(st *State, name string, s Sort, ch Term) Term {
-	return Select(c.heapGet(st, name, SArr(SInt, s)), ch, s)
-}
-
-func (c *FnCtx) chanSet(st *State, name string, s Sort, ch, v Term) {
-	h := c.heapGet(st, name, SArr(SInt, s))
-	c.heapSet(st, name, c.vc.Name("h", Store(h, ch, v)))
-}
-
-func (c *FnCtx) chanSend(fr *Frame, st *State, x *ssa.Send) {
-	ch := c.term(fr, st, x.Chan)
-	c.doSend(st, ch, "send")
-}
-
-func (c *FnCtx) doSend(st *State, ch Term, what string) {
-	c.safety("closed", st, Not(c.chanField(st, "chan$closed", SBool, ch)))
-	c.event(st, what, ch)
-	// partial correctness: the send completes
-	c.chanSet(st, "chan$sent", SInt, ch, App(SInt, "+", c.chanField(st, "chan$sent", SInt, ch), IntLit(1)))
-}
-
-func (c *FnCtx) chanRecv(fr *Frame, st *State, x *ssa.UnOp) SV {
-	ch := c.term(fr, st, x.X)
-	et := x.X.Type().Underlying().(*types.Chan).Elem()
-	c.event(st, "recv", ch)
-	v := c.freshValue(et, "recv")
-	c.chanSet(st, "chan$recvd", SInt, ch, App(SInt, "+", c.chanField(st, "chan$recvd", SInt, ch), IntLit(1)))
-	if x.CommaOk {
-		ok := c.vc.Fresh("recvok", SBool)
-		c.vc.Assert(Implies(Not(ok), c.chanField(st, "chan$closed", SBool, ch)))
-		return Tu{Elems: []SV{c.mergeSV(ok, v, c.zeroValue(et)), Sc{ok}}}
-	}
-	return v
-}
-
-func (c *FnCtx) selectOp(fr *Frame, st *State, x *ssa.Select) SV {
-	idx := c.vc.Fresh("sel", SInt)
-	lo := IntLit(0)
-	if !x.Blocking {
-		lo = IntLit(-1)
-	}
-	c.vc.Assert(And(App(SBool, "<=", lo, idx), App(SBool, "<", idx, IntLit(int64(len(x.States))))))
-	recvOk := c.vc.Fresh("selok", SBool)
-	out := Tu{Elems: []SV{Sc{c.coerceInt(idx, types.Typ[types.Int])}, Sc{recvOk}}}
-	for i, s := range x.States {
-		ch := c.term(fr, st, s.Chan)
-		if s.Dir == types.RecvOnly {
-			et := s.Chan.Type().Underlying().(*types.Chan).Elem()
-			out.Elems = append(out.Elems, c.freshValue(et, fmt.Sprintf("selrecv%d", i)))
-		}
-		c.selectEvent(st, idx, i, s, ch)
-	}
-	return out
-}
-
-func (c *FnCtx) selectEvent(st *State, idx Term, i int, s *ssa.SelectState, ch Term) {
-	// ghost counters move only on the chosen case
-	chosen := Eq(idx, IntLit(int64(i)))
-	if s.Dir == types.SendOnly {
-		cur := c.chanField(st, "chan$sent", SInt, ch)
-		c.chanSet(st, "chan$sent", SInt, ch, Ite(chosen, App(SInt, "+", cur, IntLit(1)), cur))
-	} else {
-		cur := c.chanField(st, "chan$recvd", SInt, ch)
-		c.chanSet(st, "chan$recvd", SInt, ch, Ite(chosen, App(SInt, "+", cur, IntLit(1)), cur))
-	}
-}
-
-func (c *FnCtx) event(st *State, what string, t Term) {
-	c.events = append(c.events, what+" "+t.S)
-}
